@@ -199,8 +199,9 @@ def hex_table(P, R, rule='C13.TAB.3'):
     lits = {s.ev['var']: s.ev['init']['v'] for s in ci.sites() if s.ev['k'] == 'decl' and s.ev.get('static') and (s.ev.get('init') or {}).get('k') == 'str'}
     hexlit = [v for v, t in lits.items() if t.lower().startswith('0123456789abcdef')]
     if not hexlit:
-        R.note('%s: no literal digit string in ctype_init; table not judged' % rule)
-        return
+        # the table is filled some other way (ranges, arithmetic on the character): this rule folds the initialiser over
+        # its literal digit string and cannot judge that - neither a pass nor a violation
+        raise AnalysisBroken('%s: ctype_init no longer fills the hex digits from a literal digit string; the table cannot be folded' % rule)
     hv = hexlit[0]
     table = {}
     undecided = 0
@@ -237,8 +238,7 @@ def hex_table(P, R, rule='C13.TAB.3'):
                 continue
             table[idx & 255] = v
     if undecided or not table:
-        R.note('%s: the table initialiser could not be folded over its digit string (%d undecided stores); not judged' % (rule, undecided))
-        return
+        raise AnalysisBroken('%s: the table initialiser could not be folded over its digit string (%d undecided stores)' % (rule, undecided))
     xd = 32
     for t in ci.sites():
         pass
